@@ -50,6 +50,9 @@ pub struct FileSpec {
     /// the last line has no line terminator
     #[serde(default)]
     pub no_final_newline: bool,
+    /// the file's first line is a comment spelled as an interpreter line (`#!/usr/bin/env duck`): still a line of its own
+    #[serde(default)]
+    pub shebang: bool,
 }
 
 #[derive(Serialize, Deserialize, Clone, Debug, PartialEq)]
@@ -246,8 +249,9 @@ fn file_text(case: &Case, file: usize, base: &Path) -> String {
 
 fn file_text_full(case: &Case, file: usize, base: &Path) -> String {
     let mut out = String::new();
-    for l in &case.files[file].lines {
+    for (i, l) in case.files[file].lines.iter().enumerate() {
         for pl in render_line(case, file, l, base) {
+            let pl = if i == 0 && case.files[file].shebang && matches!(l, Line::Comment) { "#!/usr/bin/env duck".to_string() } else { pl };
             out.push_str(&pl);
             out.push_str(if case.files[file].crlf { "\r\n" } else { "\n" });
         }
@@ -694,7 +698,11 @@ fn gen_case(rng: &mut Rng) -> Case {
         let _ = included_here;
         // (a file whose last line is blank cannot drop its terminator without losing that line)
         let ends_blank = matches!(lines.last(), Some(Line::Blank));
-        files.push(FileSpec { path, lines, crlf: rng.chance(1, 10), no_final_newline: !ends_blank && rng.chance(1, 8) });
+        let shebang = rng.chance(1, 6);
+        if shebang {
+            lines.insert(0, Line::Comment);
+        }
+        files.push(FileSpec { path, lines, crlf: rng.chance(1, 10), no_final_newline: !ends_blank && rng.chance(1, 8), shebang });
     }
     // make sure the root includes something when there are other files
     if n_files > 1 && !files[0].lines.iter().any(|l| matches!(l, Line::Include(_))) {
